@@ -196,7 +196,7 @@ def run(prog, chk):
         ret = node if node.kind == 'return' else None
         txt = SX.show(node.e.get('e') if node.kind == 'return' else node.e)
         chk.ob('R07.5', ev, n.get('ln', ev.ln), 'Float' in txt, '`/` returns a Float-tagged value: %s' % txt[:60], key='div-float')
-    chk.count('language-level divisions', nd, 1)
+    chk.count('language-level divisions', nd, 0)      # (a cascade of another shape is decided by the zero-divisor rows of the operator table)
     ev = ev_top
 
     # ---- R07.6 numeric routing of the binary-operator cascade ----------------------------------------
@@ -630,6 +630,12 @@ def _routing(prog, chk, ev):
                 for x in SX.walk(i['f']):
                     if x['k'] == 'ref' and x.get('kind') == 'var' and x.get('t') in ('long', 'long long', 'std::int64_t', 'int64_t'):
                         N[x['id']] = x
+    if not F and not L:
+        # the cascade does not keep its operand kinds in local flags (a record of converted operands handed to helpers, say): this
+        # guard-shape rule has nothing to read.  What it protects — no long computed or compared through doubles, result tags that
+        # match the operand kinds — is decided by value in the operator table (R07.7), whose representatives include longs above 2^53
+        chk.extra['routing_rule'] = 'not applied: the cascade has no has-float / has-long flag locals; decided by the operator table (R07.7) alone'
+        return
     if len(F) != 1 or len(L) != 1:
         raise AnalysisBroken('numeric cascade roles not resolved (F=%d L=%d)' % (len(F), len(L)))
     fid, lid = list(F)[0], list(L)[0]
@@ -744,6 +750,10 @@ RT = 'bloch::runtime::Value::Type::'
 TAGS = ['Int', 'Long', 'Float', 'Bit', 'Boolean', 'String', 'Char']
 REP = {  # one representative per tag class and side; right operands are non-zero and not -1 (those branches are R07.4's)
     'Int': (7, 2), 'Long': (7000000000, 3), 'Float': (7.5, 2.0), 'Bit': (1, 1), 'Boolean': (True, False), 'String': ('ab', 'cd'), 'Char': ('a', 'b')}
+# integer operands a double cannot hold (2^53 + 1, and 2^53 / 2^53 + 3 on the right): a cascade that computes a long result, or compares
+# longs, through the double-converted operands gives a different answer on these — decided by value, whatever shape the cascade has
+REP_BIG1 = dict(REP, Long=(2 ** 53 + 1, 2 ** 53))
+REP_BIG2 = dict(REP, Long=(2 ** 53 + 1, 2 ** 53 + 3))
 REP_EQ = {'Int': (5, 5), 'Long': (5, 5), 'Float': (5.0, 5.0), 'Bit': (1, 1), 'Boolean': (True, True), 'String': ('ab', 'ab'), 'Char': ('a', 'a')}
 FIELD = {'Int': 'intValue', 'Long': 'longValue', 'Float': 'floatValue', 'Bit': 'bitValue', 'Boolean': 'boolValue', 'String': 'stringValue', 'Char': 'charValue'}
 NUM = ('Int', 'Long', 'Float')
@@ -844,7 +854,10 @@ def _tag_table(prog, chk, ev):
                 if want is None:
                     continue
                 n += 1
-                for rep in ((REP, REP_EQ) if op in ('==', '!=', '<=', '>=', '<', '>') else (REP,)):
+                reps = (REP, REP_EQ) if op in ('==', '!=', '<=', '>=', '<', '>') else (REP,)
+                if 'Long' in (a, b) and a in ('Int', 'Long') and b in ('Int', 'Long') and op in ('+', '-', '%', '==', '!=', '<=', '>=', '<', '>'):
+                    reps = reps + (REP_BIG1, REP_BIG2)
+                for rep in reps:
                     binobj = Obj(op=op, left=Obj(side=0), right=Obj(side=1), line=1, column=1)
                     lv, rv = val(a, 0, rep), val(b, 1, rep)
 
@@ -878,6 +891,33 @@ def _tag_table(prog, chk, ev):
                         exp = fmt(lv) + fmt(rv)
                         if res[FIELD['String']] != exp:
                             vals.append('%r + %r = %r, expected %r' % (rep[a][0], rep[b][1], res[FIELD['String']], exp))
+    # zero divisors: `/` and `%` stop with a runtime error whatever the operand kinds (decided by value: the shape of the test is free)
+    zero_bad, nz = [], 0
+    for op in ('/', '%'):
+        kinds = NUM if op == '/' else ('Int', 'Long')
+        for a in kinds:
+            for b in kinds:
+                nz += 1
+                zrep = dict(REP, **{b: (REP[b][0], 0.0 if b == 'Float' else 0)})
+                binobj = Obj(op=op, left=Obj(side=0), right=Obj(side=1), line=1, column=1)
+                lv, rv = val(a, 0, REP), val(b, 1, zrep)
+
+                def m_eval0(it, e, env, lv=lv, rv=rv):
+                    x = it.expr(SX.real_args(e)[0], env)
+                    return Obj(lv) if x['side'] == 0 else Obj(rv)
+                models = {'eval': m_eval0, 'get': lambda it, e, env: it.expr(e['obj'], env), 'valueToString': lambda it, e, env: fmt(it.expr(SX.real_args(e)[0], env))}
+                it = Interp(prog, models, max_steps=4000)
+                try:
+                    it.stmt(br['t'], {br['cv']['id']: binobj, 'this': Obj()})
+                    zero_bad.append('%s %s %s(0) falls through' % (a.lower(), op, b.lower()))
+                except Ret:
+                    zero_bad.append('%s %s %s(0) yields a value' % (a.lower(), op, b.lower()))
+                except Thrown:
+                    pass
+                except (Unsupported, ZeroDivisionError) as ex:
+                    zero_bad.append('%s %s %s(0) is evaluated (%s)' % (a.lower(), op, b.lower(), type(ex).__name__))
+    chk.ob('R07.4', ev, br.get('ln', ev.ln), not zero_bad, '`/` and `%%` with a zero right operand stop with a runtime error for all %d operand-kind pairs; otherwise: %s' % (nz, zero_bad[:4]),
+           key='table:zero-divisor')
     chk.extra['operator_type_combinations'] = n
     chk.ob('R07.7', ev, br.get('ln', ev.ln), not mism,
            'result type of %d documented (operator, left type, right type) combinations equals the documented one; mismatches: %s' % (n, mism[:8]), key='table:result-types')
